@@ -44,6 +44,7 @@ type Ctx struct {
 	NFuncs  int
 	stage   *Staged     // lazily built staged program
 	norm    *normaliser // helper inlining (inline.go)
+	renames *renameLog  // renamed declarations read under their baseline names (rename.go)
 	stageEr error
 }
 
@@ -135,6 +136,7 @@ func loadRepo(repo string) (*Ctx, error) {
 	if len(c.All) == 0 {
 		return nil, fmt.Errorf("no packages of %s loaded from %s", modPath, repo)
 	}
+	normaliseRenames(c)
 	normaliseHelpers(c)
 	return c, nil
 }
@@ -438,6 +440,27 @@ func includeSome(r *Report, clause string, run func(sub *Report), constructs ...
 	}
 	if n == 0 {
 		r.Undecided(clause, "PREREQUISITE", strings.Join(constructs, ","), "-", "the prerequisite rule produced no obligation (renamed or removed construct)")
+	}
+}
+
+// includeClauses evaluates another property and adopts the obligations of the named clauses (prefix match on the
+// obligation's clause, e.g. "C10.c").
+func includeClauses(c *Ctx, r *Report, clause string, f propFunc, prefixes ...string) {
+	sub := &Report{Prop: r.Prop, Extra: map[string]interface{}{}}
+	f(c, sub)
+	n := 0
+	for _, o := range sub.Obls {
+		for _, p := range prefixes {
+			if strings.HasPrefix(o.Clause, p) {
+				no := r.add(clause+"←"+o.Clause, o.Rule, o.Construct, o.Pos, o.Verdict, o.Detail)
+				no.Nontriv = o.Nontriv
+				n++
+				break
+			}
+		}
+	}
+	if n == 0 {
+		r.Undecided(clause, "PREREQUISITE", strings.Join(prefixes, ","), "-", "the prerequisite clauses produced no obligation")
 	}
 }
 
